@@ -67,4 +67,22 @@ StepFailing(pre, a, out, post) ==
                pre.sels[i].where = "detached" /\ post.sels[j].where = "detached" /\ post.sels[j].text # pre.sels[i].text
          THEN "DetachedRuleKeepsItsText"
     ELSE "ok"
+
+\* ---- parsing a text in which an @namespace rule comes too late (after a style rule) --------------------------------------------
+\* row: what is declared in time (none / prefix p / the default namespace, URI u1), the late rule (new prefix q, p again, the default;
+\* URI u2), and a selector form used after it.  The late rule is ignored (C04), so it declares nothing: the mapping is what was
+\* declared in time, a selector using a prefix that is not declared is rejected, every other name keeps its meaning.
+NsParseFailing(r, o) ==
+    LET declared == CASE r.declared = "none" -> <<>> [] r.declared = "p" -> <<<<"p", "u1">>>> [] OTHER -> <<<<"", "u1">>>>
+        usable == r.use \in {"e", "*|e", "|e"} \/ (r.use \in {"p|e", "[p|a]"} /\ r.declared = "p")
+        want == CASE r.use \in {"p|e", "[p|a]"} -> "u1"
+                  [] r.use = "e"   -> (IF r.declared = "default" THEN "u1" ELSE "none")
+                  [] r.use = "*|e" -> "*any*"
+                  [] OTHER -> ""
+    IN  IF o.out # "ok" THEN "ParseCompletes"
+        ELSE IF o.mapping # declared THEN "MisplacedNamespaceRuleDeclaresNothing"
+        ELSE IF ~usable /\ o.present THEN "UndeclaredPrefixRejected"
+        ELSE IF usable /\ ~o.present THEN "RuleAfterMisplacedNamespaceRuleSurvives"
+        ELSE IF o.present /\ o.uri # want THEN "DenotationStable"
+        ELSE "ok"
 =============================================================================
